@@ -123,6 +123,33 @@ PROPS = {
         "trusted_base": COMMON_TB,
         "assumptions": ["the supplier is a function of the call sequence only (history model)"],
     },
+    "C09": {
+        "manifest": {
+            "text": "Lean 4 theorems: every binary decoder of the model (Tx.ReadFrom / NewTxFromStream, Txs.ReadFrom, Input.ReadFrom / ReadFromExtended, Output.ReadFrom, VarInt.ReadFrom) is a total function that on success consumes a prefix of its input and on failure reports a byte count <= the bytes supplied (Go's bytesRead accounting is carried on the error path); the chunked reader requests at most available + one chunk of memory whatever length the prefix claims (chunk size regenerated from the source); node-JSON decoding of absent/null scriptSig, scriptPubKey and array elements is an error and a decoded input has a 32-byte txid. Tied to the code by a differential check over every truncation and bit flips of seed transactions, crafted prefixes claiming 2^16..2^64-1 elements with 0..64 bytes following (each run in a memory-limited child process, allocation measured), all decoding entry points incl. a one-byte-at-a-time reader, node-JSON shapes and a JSON grammar through nine JSON entry points.",
+            "note": "Partial for memory: the allocation theorem is about a ghost model of bt.readBytes that is not tied by correspondence; the real allocator is only measured (TotalAlloc <= 64*len + 1 MiB per decode). encoding/json itself is modelled (shapes after decoding), not verified. Trusted: Lean kernel + standard axioms, harness/generators/comparer, driver glue.",
+            "technique": "Lean 4 proof over hand-written model + differential correspondence check + measured allocation in isolated child processes",
+        },
+        "generators": ["C09"],
+        "thorough_seeds": 1,
+        "gen_obligations": ["chunk_matches_source"],
+        "rule": "every truncation of standard and extended serialisations of seed transactions through NewTxFromStream and a one-byte reader; bit flips (isolated); every truncation of inputs and outputs; crafted prefixes: script lengths, input/output/tx counts and extended previous-script lengths claiming {0xfd, 2^16-1, 2^16, 2^20, 2^31, 2^32-1, 2^32, 2^40, 2^62, 2^63, 2^63+1, 2^64-1} with 0/1/7/64 bytes following, minimal and 9-byte varints, through five entry points; random bytes; node-JSON shapes with absent/null/bad-hex fields; 34 JSON atoms x 2 nestings x 9 JSON entry points. Non-trivial = op on >= 5 bytes of input.",
+        "nontrivial": lambda op, impl: len(op) >= 24,
+        "trusted_base": COMMON_TB + ["runtime.MemStats as the allocation measure"],
+        "assumptions": ["encoding/json fills the wrapper structs as modelled (absent object -> nil pointer, null array element -> nil element)"],
+    },
+    "C16": {
+        "manifest": {
+            "text": "Lean 4 theorems: both JSON dialects carry the hex of the standard serialisation, and decoding that hex returns a transaction with the identical serialisation for every well-formed transaction incl. nil unlocking scripts (hex round trip of C13 composed with the wire round trip of C01); the node decoder with a hex field is exactly that path; machine-checked counterexamples of the truncating amount conversion (29,000,000 -> 28,999,999; 3 -> 2) and their repair under round-to-nearest, over an executable rational model of IEEE-754 binary64. Tied to the code by a differential check: amounts 0..20,000 (quick) / 0..10^6 (thorough) exhaustively, all k*10^j +- 2, powers of two +- 1, the supply cap, random 51-bit values - comparing the float64 bit pattern and the decoded satoshis - and transactions, outputs and UTXOs (single and lists) in both dialects incl. unsigned inputs.",
+            "note": "Partial: the all-amounts theorem (dec(enc n) = n for every n <= 21e14) is not yet proved in this tree - amounts are decided by the exhaustive/boundary correspondence predicate; Go's float64 arithmetic being IEEE round-to-nearest-even and strconv/encoding/json printing floats that parse back to the same double are assumptions exercised by the bit-pattern comparison only.",
+            "technique": "Lean 4 proof (structural round trip) + executable IEEE-754 model + differential correspondence check",
+        },
+        "generators": ["C16"],
+        "thorough_seeds": 1,
+        "rule": "amounts: 0..20000 (quick) / 0..10^6 (thorough) exhaustively, k*10^j+d for k<=30, d in -2..2 up to 21e14, 2^p+-1, supply cap and neighbours, random values <= 21e14; transactions with 0..3 inputs (nil/empty/non-empty unlocking scripts) and 0..3 outputs with arbitrary script bytes, in library JSON, node JSON and node JSON lists; outputs and UTXOs in both dialects. Non-trivial = amount >= 1 or a transaction with an input or output.",
+        "nontrivial": lambda op, impl: not op.endswith(" 0") and "in=;out=" not in op,
+        "trusted_base": COMMON_TB + ["rational model of binary64 rounding (GoBT/Json/Amount.lean), validated bit-for-bit against Go on every run"],
+        "assumptions": ["Go float64 division/multiplication are IEEE-754 round-to-nearest-even; JSON float printing round-trips"],
+    },
 }
 
 NOT_APPLICABLE = {}
